@@ -1,5 +1,6 @@
 import FxVerif.Model.C13
 import FxVerif.Model.C07Gov
+import FxVerif.Model.C07
 import FxVerif.Model.Util
 /-! line-protocol driver for the C13/C07 model: `lake env lean --run Driver/C13.lean < ops.txt` -/
 open FxVerif FxVerif.Util FxVerif.Model.C13
@@ -7,6 +8,7 @@ open FxVerif FxVerif.Util FxVerif.Model.C13
 structure St where
   s : State := init ⟨0, 0, 0, 0, 1, 0, 0, 0⟩ []
   n : Nat := 0          -- number of oracle accounts printed in `acc=`
+  esc : FxVerif.Model.C07Escrow.State := {}   -- C07 gov half: the deposit escrow (gov module account vs deposit records)
 
 def sortNat (l : List Nat) : List Nat := l.mergeSort (fun a b => a ≤ b)
 
@@ -91,7 +93,11 @@ def step (st : St) (line : String) : St × String :=
     match parseOp ws with
     | none => match FxVerif.Model.C07Gov.gline ws with   -- gov half of C07 (stateless: the tally inputs are on the line)
       | some r => (st, r)
-      | none => (st, "bad-op")
+      | none =>
+        -- gov half of C07, deposit escrow: stateful, the guards of the code come from the regenerated statement lists
+        match FxVerif.Model.C07Escrow.eline FxVerif.Model.C07.govEscrowCode st.esc ws with
+        | some (e, r) => ({ st with esc := e }, r)
+        | none => (st, "bad-op")
     | some (.valslash v num den) =>
       let (s', r) := FxVerif.Model.C13.step st.s (.valslash v num den)
       ({ st with s := s' }, showRes r ++ " ~")
